@@ -13,6 +13,7 @@ import (
 
 	"github.com/arm-doe/sts"
 	"github.com/arm-doe/sts/internal/verif/vh"
+	"github.com/arm-doe/sts/internal/verif/vos"
 )
 
 // C06: a receiver crash at any point loses nothing and delivers nothing unvalidated.
@@ -466,6 +467,9 @@ func runCrashPoints(t *testing.T, prop, partName string, files []*sFile, alphabe
 	stT = t
 	simKeep = keep
 	defer func() { simKeep = false }()
+	// a file written in place can be caught empty (after the truncating open) or half written
+	vos.TornWrites = true
+	defer func() { vos.TornWrites = false }()
 	rep := vh.NewReport(prop, partName)
 	defer rep.Write()
 	var rc c06Replay
